@@ -79,8 +79,18 @@ def run(ctx):
                     ctx.disagreements.append({"origin": o, "kept_as": dst, "level": "O+L", "implementation": a[:300], "model": b[:300], "theorem": THM})
             if ctx.undischarged:
                 break
+        # files larger than 4 GiB (sparse source, harness/src/sparse.rs): a stream ending just below, at and beyond byte
+        # 2^32, both versions, both modes — no call may panic, and on a tree that reads such files the bytes come back
+        rc_s, out_s = C.harness(["sparse"], timeout=600)
+        sst, _, sorc = C.parse_stats(out_s)
+        if rc_s != 0:
+            ctx.undischarged.append("harness sparse crashed: " + out_s[-300:])
+        for msg in sorc[:2]:
+            C.add_violation(ctx, "sparse-4gib:" + ("panic" if "panicked" in msg else "wrong-result"), msg[:400],
+                            "# C05: %s\n# replay: harness sparse   (the file is synthesised by harness/src/sparse.rs: sector 0 FAT, 1 directory, DIFAT sectors, FAT sectors, the stream's last sector = last sector of the file)\n" % msg[:1500])
+        classes["sparse-4gib:evaluations"] = sst.get("sparse_evaluations", 0)
         ops, imp = all_ops, all_imp
-        nevals = len(all_imp)
+        nevals = len(all_imp) + sst.get("sparse_evaluations", 0)
         ctx.coverage.update({
             "evaluations": nevals,
             "distinct_nontrivial": len(set(imp)) if imp else 0,
